@@ -1,12 +1,15 @@
 package props
 
 import (
+	"time"
+
 	"context"
 	"fmt"
 	"path/filepath"
 	"regexp"
 	"sort"
 	"strings"
+	"verifharness/internal/conc"
 
 	"github.com/glebziz/fs_db/pkg/verif"
 
@@ -20,7 +23,10 @@ func init() {
 		ID: "C14", Level: "exploration",
 		Rule:        "fault-free seeded histories (overwrites, deletes, rollbacks, commits aborted by a conflict, overwrites inside a transaction before commit, Create, SetReader, several roots, direct and deferred worker-pool path) run against the reference model; then all transactions are ended, background deletions drained (barrier jobs through the real pool + the pool's own state), a collector pass run and drained again, and the storage roots walked: the multiset of regular files must equal, by count and content hash, the multiset {Get(k) : k in GetKeys()}. Second phase: more garbage is produced while the workers are held busy, the database is closed with those deletions pending, reopened, drained, collected, drained and walked again. evaluations = histories x phases walked; distinct_nontrivial = distinct (history, kinds of garbage it produced) where at least one kind of garbage was produced and physically reclaimed",
 		Assumptions: []string{"quiescence barrier (DESIGN 2.5)", "reference model refmodel"},
-		Roles:       map[string]Role{"main": {N: func(t string) int { return tierN(t, 64, 4000) }, Case: c14Case}},
+		Roles: map[string]Role{
+			"main":       {N: func(t string) int { return tierN(t, 64, 4000) }, Case: c14Case},
+			"concurrent": {N: func(t string) int { return tierN(t, 48, 1500) }, Case: c14Concurrent},
+		},
 	})
 	register(&Prop{
 		ID: "C17", Level: "exploration",
@@ -436,4 +442,50 @@ func keysOfSet(m map[string]bool) []string {
 	}
 	sort.Strings(out)
 	return out
+}
+
+// c14Concurrent: the garbage is produced by concurrent clients (autocommit, transactions of all
+// levels, a collector actor, the scheduled collector, deferred worker-pool path); afterwards every
+// transaction has ended, the pool is drained, a collector pass runs, and the roots must hold
+// exactly the live contents.
+func c14Concurrent(tier string, seed int64, idx int, scratch string) rt.CaseResult {
+	var c rt.CaseResult
+	rt.SetWatchdogLimit(60 * time.Second)
+	rng := seqrun.Rng(seed, "C14c", idx)
+	keys := []string{"x", "y", "z"}[:1+rng.Intn(3)]
+	p := genProgram(rng, fmt.Sprintf("g%d-", idx), 3+rng.Intn(2), 12+rng.Intn(10), keys, true, []int{0, 1, 2, 3}, idx%2 == 0)
+	sd := time.Millisecond
+	if idx%3 == 0 {
+		sd = 1
+	}
+	env, err := dbx.Open(dbx.Options{Mode: dbx.Inline, Dir: filepath.Join(scratch, "db"), GCPeriod: time.Duration(2+rng.Intn(8)) * time.Millisecond, SendDuration: sd, NumWorkers: 1 + rng.Intn(3), Roots: 1 + idx%2})
+	if err != nil {
+		c.Violate("open-failed", err.Error(), nil)
+		return c
+	}
+	defer env.Close()
+	tr := conc.NewTracer(false)
+	tr.Perturb(20+rng.Intn(40), 50+rng.Intn(300), uint64(seed)*211+uint64(idx))
+	tr.Install()
+	ops := execProgram(env, tr, p, nil) // every transaction of the program is committed or rolled back by its client
+	conc.Uninstall()
+	replay := map[string]any{"seed": seed, "case": idx, "program": p}
+	for _, o := range ops {
+		if o.Kind != "get" && o.Kind != "commit" && o.Class != "ok" {
+			c.Violate(fmt.Sprintf("unexpected-error op=%s class=%s", o.Kind, o.Class), o.Err, replay)
+			return c
+		}
+	}
+	if !quiesce(&c, env, replay) {
+		return c
+	}
+	c.Evals++
+	if leakCheck(&c, env, "after-concurrent-run", replay) {
+		c.AddDistinct(fmt.Sprintf("concurrent/%d-ops/%d-hook-events", len(ops), tr.Count("cleaner.deletefile.done")))
+		c.Count("files_removed_by_cleaner_in_concurrent_runs", tr.Count("cleaner.deletefile.done"))
+	}
+	if idx == 0 {
+		c.Sample = map[string]any{"concurrent_program_clients": len(p.Clients), "ops": len(ops)}
+	}
+	return c
 }
